@@ -18,6 +18,9 @@ def _work(a):
     out = []
     try:
         tu = cc.unit_for(t, on, "B")
+    except cc.NotCovered as e:
+        lg = codec.QueryLog(); lg.notes.append(f"NOT COVERED [{on}]: {e}")
+        return [(ti, on, "not covered", lg, None, 0.0)]
     except Exception as e:
         lg = codec.QueryLog(); lg.unknown.append(f"build failed: {str(e)[-300:]}")
         return [(ti, on, "build", lg, None, 0.0)]
@@ -34,7 +37,7 @@ def _work(a):
 def main(tier: str) -> int:
     rep = common.Report("C02", tier, "other")
     _TIER[0] = tier
-    optnames = ["default", "little+asserts"] if tier == "quick" else list(cc.OPTSETS)
+    optnames = ["default", "little+asserts", "cpp14"] if tier == "quick" else list(cc.OPTSETS)
     with common.scratch("nvc02_") as d:
         types, feats = cc.prepare(tier, d, optnames)
         _TYPES[:] = types
@@ -51,7 +54,8 @@ def main(tier: str) -> int:
                        "clang 14 -O1 IR of x86-64; pydsdl describes the types",
                        "float16 decode: exact half->single conversion, any NaN for NaN",
                        "delimiter headers, length prefixes and union tags are symbolic; the executor splits on their feasible values (bounded by L / capacity)"]
-    rep.not_covered = ["C++ target (staged)", "Python target (staged, E4)", "types not in the corpus"]
+    rep.not_covered = ["C++: types with bit arrays (std::bitset / std::vector<bool>); C++17 std::variant and pmr/cetl flavours only in the thorough tier",
+                       "Python target (E4 executor not landed)", "types not in the corpus"]
     rep.extra["explanation"] = ("llsym symbolic execution of each generated deserializer on an arbitrary L-byte buffer; per path and per wire shape one z3 "
                                 "query: NOT(rc / consumed size / every meaningful decoded field match the reference decode of the zero-extended buffer) "
                                 "must be unsat; invalid representations must yield exactly the specified error")
